@@ -10,7 +10,7 @@ BASE = dict(
     RENDERKINDS='{}', ENC8='{FALSE}', DSNS='{"off"}', NONOOP='{FALSE}',
     SHAPES='{"lead"}', CLASSES='{"t4", "p5", "drop"}', CODESETS='{51}',
     POLICIES='{"none"}', AUTHTYPES='{"NOAUTH"}', HOSTKINDS='{"other"}', STARTTLSADV='{FALSE}',
-    AUTHLISTS='{{}}', HANDSHAKES='{"ok"}', CAPS2='{{}}', LOGAUTH='{FALSE}', LOGGERS='{"capture"}',
+    AUTHLISTS='{{}}', HANDSHAKES='{"ok"}', CAPS2='{{}}', LOGAUTH='{FALSE}', LOGGERS='{"capture"}', FALLBACK='{FALSE}',
     DEV_ImplicitDot='FALSE', DEV_NoRsetAfterDataReject='FALSE', DEV_ContinueAfterRsetFail='FALSE',
     DEV_LeakOnDialError='FALSE', DEV_QuitFailureLeavesConn='FALSE', DEV_NoDeadlineInDial='FALSE',
     DEV_NoopBeforeDeadline='FALSE', DEV_WindowStaysOpen='FALSE')
@@ -69,7 +69,7 @@ STAGES = {
                                             CLASSES='{"t4", "p5", "drop", "mal"}',
                                             AUTHTYPES='{"PLAIN", "PLAIN-NOENC", "LOGIN", "CRAM-MD5", "XOAUTH2", "SCRAM-SHA-256", "AUTODISCOVER"}',
                                             AUTHLISTS='{{}, {"PLAIN", "LOGIN", "XOAUTH2"}, {"CRAM-MD5", "SCRAM-SHA-256", "SCRAM-SHA-1"}}',
-                                            HOSTKINDS='{"localhost", "other"}')),
+                                            HOSTKINDS='{"localhost", "loopback", "lookalike", "other"}')),
             ('dial-tls-auth-b1', 'Session', cfg(OP='"Dial"', N='1', MAXR='1', BUDGET='1', CAPSETS='{{}}',
                                                 CLASSES='{"t4", "p5", "drop", "mal"}', POLICIES='{"mandatory"}', STARTTLSADV='{TRUE}',
                                                 AUTHTYPES='{"PLAIN", "LOGIN", "SCRAM-SHA-256-PLUS", "AUTODISCOVER"}',
@@ -86,7 +86,7 @@ STAGES = {
                                             CLASSES='{"t4", "p5", "drop", "mal"}',
                                             AUTHTYPES='{"PLAIN", "PLAIN-NOENC", "LOGIN", "LOGIN-NOENC", "CRAM-MD5", "XOAUTH2", "SCRAM-SHA-1", "SCRAM-SHA-256", "AUTODISCOVER"}',
                                             AUTHLISTS='{{}, {"PLAIN", "LOGIN", "XOAUTH2"}, {"CRAM-MD5", "SCRAM-SHA-256", "SCRAM-SHA-1"}, {"LOGIN"}}',
-                                            HOSTKINDS='{"localhost", "other"}')),
+                                            HOSTKINDS='{"localhost", "loopback", "lookalike", "other"}')),
             ('dial-tls-auth-b2', 'Session', cfg(OP='"Dial"', N='1', MAXR='1', BUDGET='2', CAPSETS='{{}}',
                                                 CLASSES='{"t4", "p5", "drop", "mal"}', POLICIES='{"mandatory", "opportunistic"}', STARTTLSADV='{TRUE}',
                                                 AUTHTYPES='{"PLAIN", "LOGIN", "SCRAM-SHA-256-PLUS", "SCRAM-SHA-1-PLUS", "AUTODISCOVER"}',
@@ -100,7 +100,9 @@ STAGES = {
                                           POLICIES='{"mandatory", "opportunistic", "none"}', STARTTLSADV='{TRUE}', HANDSHAKES='{"ok", "stall"}',
                                           AUTHTYPES='{"NOAUTH", "PLAIN-NOENC", "LOGIN-NOENC", "CRAM-MD5", "SCRAM-SHA-256", "XOAUTH2"}',
                                           AUTHLISTS='{{"PLAIN", "LOGIN", "CRAM-MD5", "SCRAM-SHA-256", "XOAUTH2"}}')),
-            ('send-stall', 'Session', cfg(BUDGET='1', CAPSETS='{{}}', CLASSES='{"stall"}', NONOOP='BOOLEAN')),
+            ('send-stall', 'Session', cfg(BUDGET='1', CAPSETS='{{}}', CLASSES='{"stall", "cstall"}', NONOOP='BOOLEAN')),
+            ('dial-fallback-stall', 'Session', cfg(OP='"Dial"', N='1', MAXR='1', BUDGET='2', CAPSETS='{{}}', CLASSES='{"stall", "refuse"}',
+                                                   FALLBACK='BOOLEAN', POLICIES='{"opportunistic", "none"}', STARTTLSADV='{FALSE}')),
             ('dialandsend-stall', 'Session', cfg(OP='"DialAndSend"', N='1', BUDGET='1', CAPSETS='{{}}', CLASSES='{"stall"}')),
             ('reset-stall', 'Session', cfg(OP='"Reset"', N='1', MAXR='1', BUDGET='1', CAPSETS='{{}}', CLASSES='{"stall"}', NONOOP='BOOLEAN')),
         ],
@@ -109,7 +111,10 @@ STAGES = {
                                              POLICIES='{"mandatory", "opportunistic", "none"}', STARTTLSADV='BOOLEAN', HANDSHAKES='{"ok", "stall"}',
                                              AUTHTYPES='{"NOAUTH", "PLAIN", "PLAIN-NOENC", "LOGIN-NOENC", "CRAM-MD5", "SCRAM-SHA-1", "SCRAM-SHA-256", "SCRAM-SHA-256-PLUS", "XOAUTH2", "AUTODISCOVER"}',
                                              AUTHLISTS='{{"PLAIN", "LOGIN", "CRAM-MD5", "SCRAM-SHA-1", "SCRAM-SHA-256", "SCRAM-SHA-256-PLUS", "XOAUTH2"}}')),
-            ('send-stall-b2', 'Session', cfg(N='3', BUDGET='2', CAPSETS='{{}}', CLASSES='{"stall", "p5"}', NONOOP='BOOLEAN')),
+            ('send-stall-b2', 'Session', cfg(N='3', BUDGET='2', CAPSETS='{{}}', CLASSES='{"stall", "cstall", "p5"}', NONOOP='BOOLEAN')),
+            ('dial-fallback-stall', 'Session', cfg(OP='"Dial"', N='1', MAXR='1', BUDGET='2', CAPSETS='{{}}', CLASSES='{"stall", "refuse"}',
+                                                   FALLBACK='BOOLEAN', POLICIES='{"mandatory", "opportunistic", "none"}', STARTTLSADV='BOOLEAN',
+                                                   AUTHTYPES='{"NOAUTH", "CRAM-MD5"}', AUTHLISTS='{{"CRAM-MD5"}}')),
             ('dialandsend-stall-b2', 'Session', cfg(OP='"DialAndSend"', N='2', BUDGET='2', CAPSETS='{{}}', CLASSES='{"stall", "p5"}')),
             ('reset-stall', 'Session', cfg(OP='"Reset"', N='1', MAXR='1', BUDGET='2', CAPSETS='{{}}', CLASSES='{"stall", "t4"}', NONOOP='BOOLEAN')),
         ],
@@ -143,20 +148,20 @@ STAGES = {
     'C07': {
         'quick': [
             ('dial-policy-auth-matrix', 'Session', cfg(OP='"Dial"', N='1', MAXR='1', BUDGET='0', CAPSETS='{{}}',
-                POLICIES='{"mandatory", "opportunistic", "none"}', STARTTLSADV='BOOLEAN', HOSTKINDS='{"localhost", "other"}',
+                POLICIES='{"mandatory", "opportunistic", "none"}', STARTTLSADV='BOOLEAN', HOSTKINDS='{"localhost", "loopback", "lookalike", "other"}',
                 HANDSHAKES='{"ok", "wrongname", "untrusted", "garbage"}',
                 AUTHTYPES='{"NOAUTH", "PLAIN", "PLAIN-NOENC", "LOGIN", "LOGIN-NOENC", "CRAM-MD5", "XOAUTH2", "SCRAM-SHA-1", "SCRAM-SHA-256", "SCRAM-SHA-1-PLUS", "SCRAM-SHA-256-PLUS", "AUTODISCOVER"}',
                 AUTHLISTS='{{}, {"PLAIN", "LOGIN"}, {"LOGIN", "CRAM-MD5"}, {"PLAIN", "XOAUTH2", "SCRAM-SHA-256-PLUS"}, {"PLAIN", "LOGIN", "CRAM-MD5", "XOAUTH2", "SCRAM-SHA-1", "SCRAM-SHA-256", "SCRAM-SHA-1-PLUS", "SCRAM-SHA-256-PLUS"}}')),
             ('dial-starttls-faults', 'Session', cfg(OP='"Dial"', N='1', MAXR='1', BUDGET='1', CAPSETS='{{}}', CLASSES='{"t4", "p5", "garbage", "drop"}',
-                POLICIES='{"mandatory", "opportunistic"}', STARTTLSADV='{TRUE}', HOSTKINDS='{"other"}',
-                AUTHTYPES='{"PLAIN", "LOGIN", "AUTODISCOVER"}', AUTHLISTS='{{"PLAIN", "LOGIN"}}')),
+                POLICIES='{"mandatory", "opportunistic"}', STARTTLSADV='{TRUE}', HOSTKINDS='{"other", "localhost"}',
+                AUTHTYPES='{"PLAIN", "LOGIN", "AUTODISCOVER"}', AUTHLISTS='{{"PLAIN", "LOGIN"}, {"LOGIN", "XOAUTH2"}}')),
             ('dialandsend-mandatory', 'Session', cfg(OP='"DialAndSend"', N='1', MAXR='1', BUDGET='1', CAPSETS='{{}}',
                 POLICIES='{"mandatory"}', STARTTLSADV='BOOLEAN', HANDSHAKES='{"ok", "untrusted"}',
                 AUTHTYPES='{"NOAUTH", "PLAIN"}', AUTHLISTS='{{"PLAIN"}}')),
         ],
         'thorough': [
             ('dial-policy-auth-matrix-b1', 'Session', cfg(OP='"Dial"', N='1', MAXR='1', BUDGET='1', CAPSETS='{{}}', CLASSES='{"t4", "p5", "garbage", "drop"}',
-                POLICIES='{"mandatory", "opportunistic", "none"}', STARTTLSADV='BOOLEAN', HOSTKINDS='{"localhost", "other"}',
+                POLICIES='{"mandatory", "opportunistic", "none"}', STARTTLSADV='BOOLEAN', HOSTKINDS='{"localhost", "loopback", "lookalike", "other"}',
                 HANDSHAKES='{"ok", "wrongname", "untrusted", "garbage"}',
                 AUTHTYPES='{"NOAUTH", "PLAIN", "PLAIN-NOENC", "LOGIN", "LOGIN-NOENC", "CRAM-MD5", "XOAUTH2", "SCRAM-SHA-1", "SCRAM-SHA-256", "SCRAM-SHA-1-PLUS", "SCRAM-SHA-256-PLUS", "AUTODISCOVER"}',
                 AUTHLISTS='{{}, {"PLAIN", "LOGIN"}, {"LOGIN", "CRAM-MD5"}, {"PLAIN"}, {"XOAUTH2"}, {"PLAIN", "XOAUTH2", "SCRAM-SHA-256-PLUS"}, {"SCRAM-SHA-1"}, {"PLAIN", "LOGIN", "CRAM-MD5", "XOAUTH2", "SCRAM-SHA-1", "SCRAM-SHA-256", "SCRAM-SHA-1-PLUS", "SCRAM-SHA-256-PLUS"}}')),
